@@ -387,6 +387,7 @@ func refApply(s0 *dbSnap, u *upd, nextGen int, litOf map[string]string) refResul
 			return res
 		}
 		m.Deleted = true
+		m.RID = "DELETED" // after C06-fix-3 the remote id is released at once
 		for _, mb := range s.Mb {
 			if mb.has(m.IID) {
 				removeFrom(mb, m.IID)
